@@ -12,7 +12,7 @@ OPT_QUICK_ALL = True      # every partition also in a child interpreter started 
 LEVEL = "model_checking"
 TECHNIQUE = "exhaustive enumeration of (status byte x sense x transport x call path x raw flag) at depth 1 and of all status/command histories up to a depth bound on real device objects over stand-in bindings, judged by a status->outcome reference model"
 RULE = ("depth 1: all 256 status bytes x {SG_IO, iSCSI} x {device.execute, SCSI.execute} x raw-sense {off,on} x (READ(10) x 5 sense buffers + 7 other commands incl. ATA PASS-THROUGH with/without CK_COND), and all 256 "
-        "status bytes (over iSCSI also 12 status values beyond one byte incl. libiscsi's REDIRECT / CANCELLED / ERROR / TIMEOUT pseudo-statuses) x both transports x each of the 38 facade methods on every command set offering it x 2 sense buffers, and CHECK CONDITION x 6 sense keys x 6 additional sense codes (thorough: 16 x 12) x fixed / descriptor format through every facade method; the same command inside `with device:` / `with SCSI(device):` blocks x 8 statuses x 6 values handed back by the binding's disconnect (the error must leave the block); histories: all "
+        "status bytes (over iSCSI also 12 status values beyond one byte incl. libiscsi's REDIRECT / CANCELLED / ERROR / TIMEOUT pseudo-statuses) x both transports x each of the 38 facade methods on every command set offering it x 2 sense buffers, and CHECK CONDITION x 6 sense keys x 6 additional sense codes (thorough: 16 x 12) x fixed / descriptor format through every facade method; an asynchronous KeyboardInterrupt injected at every source line the library executes during 9 facade calls (incl. both ATA PASS-THROUGH forms and a re-attach), on both transports: passed on as it is, and the next GOOD / CHECK CONDITION on the same objects behave as ever; the same command inside `with device:` / `with SCSI(device):` blocks x 8 statuses x 6 values handed back by the binding's disconnect (the error must leave the block); histories: all "
         "sequences up to length L (3 quick, 4 thorough; steps may also be a transport I/O error, ENODEV, a re-plug with ENODEV, a KeyboardInterrupt arriving inside the binding - passed on as it is -, or the facade re-pointed by call to another device whose INQUIRY is answered GOOD / CHECK CONDITION / BUSY) over {GOOD, CHECK CONDITION, BUSY, RESERVATION CONFLICT, 7Fh} x {TEST UNIT READY, "
         "READ(10), INQUIRY} on one device per transport, every step judged and every GOOD step's result compared with the target, once with a fresh facade call per step and once with one command object per kind submitted again at every step (retry loop); each CHECK CONDITION step carries its own distinct sense data; later steps also range over ATA PASS-THROUGH(16) facade calls (GOOD / CHECK CONDITION / transport I/O error), a refused ATA call (no block size) and transport errors during TEST UNIT READY (EIO, ENODEV, ENODEV while the node is being replaced). "
         "states = distinct canonical device/facade snapshots reached, transitions = commands executed in histories. Non-trivial = status "
@@ -49,6 +49,8 @@ def partitions(tier):
             for st in ("GOOD", "CC", "BUSY", "RC", "7F"):
                 parts.append(["hist", tr, first, st])
                 parts.append(["rehist", tr, first, st])
+        for m in INTERRUPT_METHODS:
+            parts.append(["interrupt", tr, m])
     return parts
 
 
@@ -134,9 +136,91 @@ def new_cmd(kind, dev, blocksize=512):
     return Inquiry(dev.opcodes.INQUIRY)
 
 
+INTERRUPT_METHODS = ["testunitready", "inquiry", "read10", "write10", "modesense6", "readcapacity16", "atapassthrough16", "atapassthrough12", "reattach"]
+
+
+def run_interrupt(tr, method, acc=None, only=None):
+    """an asynchronous exception (the user's Ctrl-C) raised at the k-th source line the library executes during one facade call, for
+    every k in turn (the exception is injected by the line tracer, i.e. exactly where CPython would deliver it): the caller sees that
+    KeyboardInterrupt; afterwards the same facade and device behave as ever - a GOOD command returns after one submission, a CHECK
+    CONDITION raises CheckCondition with its sense data (no raw-sense mode left switched on), the SG_IO handle is still the only one"""
+    import os
+    import sys
+    pre = os.path.join(os.environ.get("VF_REPO", "/repo"), "pyscsi") + os.sep
+    out = []
+    k = 0 if only is None else only
+    while True:
+        rig = harness.Rig(tr, 0x00)
+        rig2 = harness.Rig(tr, 0x00) if method == "reattach" else None
+        try:
+            s = rig.facade(512)
+            fn = {"testunitready": s.testunitready, "inquiry": s.inquiry, "read10": lambda: s.read10(1, 1), "write10": lambda: s.write10(1, 1, bytearray(512)),
+                  "modesense6": lambda: s.modesense6(0x0A), "readcapacity16": s.readcapacity16,
+                  "atapassthrough16": lambda: s.atapassthrough16(4, 2, 1, 1, 0, 0, 0, 1, 0, 0xEC, ck_cond=1),
+                  "atapassthrough12": lambda: s.atapassthrough12(4, 2, 1, 1, 0, 0, 0, 1, 0, 0xEC, ck_cond=1),
+                  "reattach": (lambda: s(rig2.dev))}[method]
+            state = {"n": 0, "fired": None}
+            boom = KeyboardInterrupt()
+
+            def tracer(frame, event, arg):
+                if not frame.f_code.co_filename.startswith(pre):
+                    return None
+                return line_tracer
+
+            def line_tracer(frame, event, arg):
+                if event == "line" and state["fired"] is None:
+                    if state["n"] == k:
+                        state["fired"] = "%s:%d" % (os.path.basename(frame.f_code.co_filename), frame.f_lineno)
+                        raise boom
+                    state["n"] += 1
+                return line_tracer
+            sys.settrace(tracer)
+            try:
+                try:
+                    fn()
+                    seen = "returned normally"
+                except BaseException as e:   # noqa: BLE001
+                    seen = e
+            finally:
+                sys.settrace(None)
+            if state["fired"] is None:
+                return out, k
+            if acc is not None:
+                acc.transitions += 3
+            where = "%s over %s interrupted at library line #%d (%s)" % (method, tr, k, state["fired"])
+            if seen is not boom:
+                out.append(("%s/interrupt/not_passed_on" % tr, "%s: the caller saw %r instead of the KeyboardInterrupt" % (where, seen)))
+            # ---- afterwards: the same objects, ordinary use
+            if method == "reattach":
+                s.device = rig.dev
+            tgt = rig.target
+            del tgt.script[:]
+            n0 = len(tgt.log)
+            oc = attempt(s.testunitready)
+            if oc[0] != "ret" or len(tgt.log) - n0 != 1:
+                out.append(("%s/interrupt/next_good_call" % tr, "%s: the next TEST UNIT READY (GOOD) %s, %d submission(s)"
+                            % (where, "returned" if oc[0] == "ret" else "raised %s: %s" % (type(oc[1]).__name__, oc[1]), len(tgt.log) - n0)))
+            sense = fixed_sense(6, 0x29, 0x02)
+            SENSES["intr"] = (sense, (6, 0x29, 0x02))
+            tgt.script.append((0x02, sense))
+            oc = attempt(s.testunitready)
+            out += [(kk, "%s: afterwards, %s" % (where, w)) for kk, w in judge(tr, 0x02, "intr", False, oc, None, "interrupt/next_check_condition")]
+            if rig.node is not None and len(rig.node.open_handles()) != 1:
+                out.append(("%s/interrupt/handles" % tr, "%s: %d descriptors open on the node afterwards" % (where, len(rig.node.open_handles()))))
+        finally:
+            rig.close()
+            if rig2 is not None:
+                rig2.close()
+        if out or only is not None:
+            return out, k + 1
+        k += 1
+
+
 def run_case(case, obs=None):
     install.ensure()
     mode = case[0]
+    if mode == "interrupt":
+        return run_interrupt(case[1], case[2], None, case[3])[0]
     if mode == "direct":
         _, tr, path, status, sensekind, raw = case[:6]
         ckind = case[6] if len(case) > 6 else "read10"
@@ -403,6 +487,17 @@ def run_partition(part, tier, seed):
                             do(["direct", tr, path, status, "fixed18", raw] + ([ckind] if ckind else []), True)
                             acc.traces += 1
                             acc.transitions += 1
+    elif part[0] == "interrupt":
+        _, tr, m = part
+        v, npoints = run_interrupt(tr, m, acc)
+        acc.add("interruption_points", npoints)
+        acc.traces += npoints
+        # (one case per partition in the books; a failing point is recorded with its index so that the replay goes straight to it)
+        case = ["interrupt", tr, m, npoints - 1 if v else None]
+        acc.case(case, nontrivial=True, key=repr(case[:3]))
+        for k, w in v:
+            acc.violation(k, w, case)
+        acc.outcome((tr, m, npoints, tuple(k for k, _ in v)))
     elif part[0] == "with":
         tr = part[1]
         for how in ("dev", "scsi"):
